@@ -63,9 +63,9 @@ def quick_corpus():
     c.append(tok("cdn", s=-1, fs=-1, orth=False, tag="cdn-nonorth-rev"))
     c.append(tok("cdn", s=1, fs=1, orth=False, wall="slant", guards=0, tag="cdn-nonorth"))
     # double nulls with four different leg sizes and unequal inner/outer core (C08)
-    c.append(tok("ldn", s=1, fs=1, tag="ldn-base", ny_inner_lower_divertor=3, ny_outer_lower_divertor=4, ny_inner_upper_divertor=5, ny_outer_upper_divertor=6, ny_inner_sol=3, ny_outer_sol=4))
+    c.append(tok("ldn", s=1, fs=1, tag="ldn-base", psinorm_sol_inner=1.12, ny_inner_lower_divertor=3, ny_outer_lower_divertor=4, ny_inner_upper_divertor=5, ny_outer_upper_divertor=6, ny_inner_sol=3, ny_outer_sol=4))
     c.append(tok("ldn", s=-1, fs=1, orth=False, tag="ldn-nonorth-rev"))
-    c.append(tok("udn", s=-1, fs=-1, guards=0, tag="udn-rev-g0", ny_inner_lower_divertor=4, ny_outer_lower_divertor=3, ny_inner_upper_divertor=5, ny_outer_upper_divertor=6, ny_inner_sol=3, ny_outer_sol=4))
+    c.append(tok("udn", s=-1, fs=-1, guards=0, tag="udn-rev-g0", psinorm_sol_inner=1.15, ny_inner_lower_divertor=4, ny_outer_lower_divertor=3, ny_inner_upper_divertor=5, ny_outer_upper_divertor=6, ny_inner_sol=3, ny_outer_sol=4))
     c.append(tok("ldn", s=1, fs=-1, interp="dct", guards=0, tag="ldn-dct-g0", eq_extra={"nR": 49, "nZ": 57}))
     c.append(tok("lsn", s=-1, fs=1, orth=False, tag="lsn-nonorth-rev", nonorthogonal_spacing_method="poloidal_orthogonal_combined"))
     c.append(tok("usn", s=-1, fs=-1, tag="usn-xyderiv", curvature_type="curl(b/B) with x-y derivatives", nx_core=4, nx_sol=4))
@@ -81,6 +81,15 @@ def quick_corpus():
     f_ = GaussFamily(e_)
     ps = f_.psi_axis + 1.2 * (f_.psi_bdry - f_.psi_axis)
     c.append(tok("lsn", s=-1, fs=1, tag="lsn-extrapolate", eq_extra={"pn_max": 1.0}, extrapolate_profiles=True, psi_sol=ps, psi_sol_inner=ps))
+    # a blunt inboard nose that every flux surface of the inner lower leg crosses before it reaches the
+    # floor (three wall crossings between the X-point and the floor): the target is the first one
+    c.append(tok("lsn", s=-1, fs=1, orth=False, tag="lsn-nose-nonorth", wall={"kind": "nose", "tip": 1.40}, nonorthogonal_spacing_method="poloidal_orthogonal_combined"))
+    # psi_sol given as a number overrides psinorm_sol: the second X-point (psi_N = 1.024) lies between the
+    # (ignored) psinorm_sol = 1.01 and psi_sol (psi_N = 1.2), so this must be gridded as a double null
+    e2_ = {"topo": "ldn", "s": 1, "fs": -1, "shift": [0.003, 0.002]}
+    f2_ = GaussFamily(e2_)
+    ps2 = f2_.psi_axis + 1.2 * (f2_.psi_bdry - f2_.psi_axis)
+    c.append(tok("ldn", s=1, fs=-1, tag="ldn-psisol", psinorm_sol=1.01, psi_sol=ps2, psi_sol_inner=ps2))
     # the whole machine moved up so that max(Z) > max(R): catches R/Z mix-ups that a domain with |Z|<R hides
     c.append(tok("lsn", s=-1, fs=-1, tag="lsn-zoff", eq_extra={"zoff": 1.9}, wall={"kind": "slant", "zoff": 1.9}, guards=2))
     # the same kind of grid built by worker processes (number_of_processors=3): the refined contours
